@@ -53,6 +53,23 @@ Report ==
   /\ Rep("PauseAck", PauseAck(P, O, Ev, Ev.target))
   /\ Rep("StopAck", StopAck(P, O, Ev, Ev.target, Ev.arg))
   /\ Rep("TreeCancelled", TreeCancelled(O))
+  /\ Rep("AttemptBound", AttemptBound(D, O, RerunSeen))
+  /\ Rep("FailOnApplied", FailOnApplied(D, O))
+  /\ (l = Len(Steps) /\ R.meta.policies) =>
+        /\ Rep("StopAtFirstSuccess", StopAtFirstSuccess(D, Steps, l))
+        /\ Rep("FinalIffLast", FinalIffLast(D, Steps, l, RerunSeen, OpSeen))
+        /\ Rep("DelayRespected", DelayRespected(D, Steps, l))
+        /\ Rep("WaitBeforeRespected", WaitBeforeRespected(D, Steps, l))
+        /\ Rep("WaitAfterRespected", WaitAfterRespected(D, Steps, l))
+        /\ Rep("TimeoutJudged", TimeoutJudged(D, Steps, l, OpSeen))
+  /\ Rep("RerunRestores", RerunRestores(P, O, Ev))
+  /\ Rep("SkipApplied", SkipApplied(P, O, Ev))
+  /\ \A k \in 2..l : (Steps[k].ev.kind = "op" /\ Steps[k].ev.what = "rerun" /\ Steps[k].ev.exc = "none"
+                        /\ Steps[k].ev.arg \in {"reset", "noreset"} /\ ~(\E k2 \in (k + 1)..l : Steps[k2].ev.kind = "op")) =>
+        /\ Rep("RerunReexecutes", RerunReexecutes(Steps[k - 1].obs, O, Steps[k].ev.target,
+                                                   D.tasks[By(Rng(Steps[k - 1].obs.tk), Steps[k].ev.target).name].items >= 0))
+        /\ (Steps[k].ev.arg = "noreset" /\ D.tasks[By(Rng(Steps[k - 1].obs.tk), Steps[k].ev.target).name].items >= 0) =>
+              Rep("PartialRerunOnlyFailed", PartialRerunOnlyFailed(Steps[k - 1].obs, O, Steps[k].ev.target))
   /\ Rep("ParentMirrorsChild", ParentMirrorsChild(D, O))
   /\ Rep("RootAndNamespace", RootAndNamespace(O))
   /\ (l = Len(Steps) => PrintT(<<"done", tid, Len(Steps)>>))
